@@ -111,6 +111,8 @@ func runScenario(name string, cfgSeed uint64, ch func(int, []int) int, grace tim
 		return runSnap(cfg, ch, grace)
 	case "keys":
 		return runKeys(int(cfgSeed%6), ch, grace)
+	case "ddl":
+		return runDDL(cfgSeed, ch, grace)
 	default:
 		n := 2 + rng.Intn(2)
 		cfg := insCfg{inserters: n, deleter: rng.Chance(40), counter: rng.Chance(50), keyed: rng.Chance(25)}
@@ -139,7 +141,7 @@ func cmdSched(args []string) {
 	var lockTraces []string
 	var lockOrigin []string
 	record := func(name string, cfgSeed uint64, o *scenOut) {
-		if !strings.Contains(o.Desc, "ranger=true") && name != "ins" && name != "keys" {
+		if !strings.Contains(o.Desc, "ranger=true") && name != "ins" && name != "keys" && name != "ddl" {
 			for c, evs := range lockEvents(o.Trace) {
 				lockTraces = append(lockTraces, "["+strings.Join(evs, "; ")+"]")
 				lockOrigin = append(lockOrigin, fmt.Sprintf("%s:%d:chunk%d:%v", name, cfgSeed, c, o.Choices))
